@@ -9,6 +9,7 @@ import (
 	"bytes"
 	"context"
 	"crypto/ed25519"
+	"crypto/sha256"
 	"errors"
 	"fmt"
 	"io"
@@ -129,13 +130,31 @@ func showHdr(h *types.SignedHeader) string {
 	}
 	return "ok hdr=" + hx.Hex(hb)
 }
+// valTag: the first four bytes of sha256(value): the written VALUES are part of the observation, not only
+// the keys (a save that wrote other bytes than the ones read back later is a correspondence diff at the write).
+func valTag(v []byte) string {
+	d := sha256.Sum256(v)
+	return hx.Hex(d[:4])
+}
+func describeWS(ws hx.WriteSet) string {
+	parts := make([]string, len(ws))
+	for i, w := range ws {
+		if w.Del {
+			parts[i] = "del:" + w.Key
+		} else {
+			parts[i] = "put:" + w.Key + "=" + valTag(w.Val)
+		}
+	}
+	sort.Strings(parts)
+	return strings.Join(parts, ",")
+}
 func describe(wss []hx.WriteSet) string {
 	if len(wss) == 0 {
 		return "-"
 	}
 	parts := make([]string, len(wss))
 	for i, ws := range wss {
-		parts[i] = hx.DescribeWS(ws)
+		parts[i] = describeWS(ws)
 	}
 	return strings.Join(parts, ";")
 }
@@ -202,23 +221,59 @@ func rdMeta(st storepkg.Store, k string) string {
 type refBlock struct {
 	hdr, data, sig []byte
 	hash           string
+	seq            int // number of the save that wrote it
 }
+type refEntry struct {
+	height uint64
+	seq    int
+}
+
+// refState is what the property says, written down without looking at the store's key layout:
+// the block of a height is the last one saved at that height; the block of a hash is the last one saved
+// UNDER THAT HASH, and there is none any more once its height was saved again with another block.
 type refState struct {
 	height uint64
+	seq    int
 	blocks map[uint64]refBlock
-	index  map[string]uint64 // hex(header hash) -> height of the latest save under that hash
-	state  string            // canonical state, "" = none
+	index  map[string]refEntry // hex(header hash) -> the latest save under that hash
+	state  string              // canonical state, "" = none
 	meta   map[string][]byte
-	// heights that were saved again with a header of a different hash
-	resaved map[uint64]bool
 }
 
 func newRef() *refState {
-	return &refState{blocks: map[uint64]refBlock{}, index: map[string]uint64{}, meta: map[string][]byte{}, resaved: map[uint64]bool{}}
+	return &refState{blocks: map[uint64]refBlock{}, index: map[string]refEntry{}, meta: map[string][]byte{}}
+}
+
+// byHash: the block last saved under hash x, if it is still the block of its height.
+func (r *refState) byHash(x string) (refBlock, bool) {
+	e, ok := r.index[x]
+	if !ok {
+		return refBlock{}, false
+	}
+	b, ok := r.blocks[e.height]
+	if !ok || b.seq != e.seq {
+		return refBlock{}, false
+	}
+	return b, true
+}
+
+// overwritten: x was saved, and its height was saved again since with another block.
+func (r *refState) overwritten(x string) bool {
+	e, ok := r.index[x]
+	if !ok {
+		return false
+	}
+	b, ok := r.blocks[e.height]
+	return ok && b.seq != e.seq
+}
+func (r *refState) save(h uint64, hk string, hb, db, sig []byte) {
+	r.seq++
+	r.blocks[h] = refBlock{hdr: hb, data: db, sig: append([]byte(nil), sig...), hash: hk, seq: r.seq}
+	r.index[hk] = refEntry{height: h, seq: r.seq}
 }
 func (r *refState) clone() *refState {
 	c := newRef()
-	c.height, c.state = r.height, r.state
+	c.height, c.state, c.seq = r.height, r.state, r.seq
 	for k, v := range r.blocks {
 		c.blocks[k] = v
 	}
@@ -227,9 +282,6 @@ func (r *refState) clone() *refState {
 	}
 	for k, v := range r.meta {
 		c.meta[k] = v
-	}
-	for k, v := range r.resaved {
-		c.resaved[k] = v
 	}
 	return c
 }
@@ -255,18 +307,18 @@ func (r *refState) expSig(h uint64) string {
 	return "ok sig=" + hx.Hex(b.sig)
 }
 func (r *refState) expByHash(x []byte) string {
-	h, ok := r.index[hx.Hex(x)]
+	b, ok := r.byHash(hx.Hex(x))
 	if !ok {
 		return "err:notfound"
 	}
-	return r.expBlock(h)
+	return "ok hdr=" + hx.Hex(b.hdr) + " data=" + hx.Hex(b.data)
 }
 func (r *refState) expSigByHash(x []byte) string {
-	h, ok := r.index[hx.Hex(x)]
+	b, ok := r.byHash(hx.Hex(x))
 	if !ok {
 		return "err:notfound"
 	}
-	return r.expSig(h)
+	return "ok sig=" + hx.Hex(b.sig)
 }
 func (r *refState) expHeight() string { return fmt.Sprintf("ok h=%d", r.height) }
 func (r *refState) expState() string {
@@ -366,6 +418,44 @@ type world struct {
 	ref   *refState
 	un    *universe
 	snaps []snap
+	// reads that already disagree with the reference (reported once); the monitor stays armed for every
+	// other read, and for these as soon as they agree again
+	diverged map[string]bool
+}
+
+// fresh returns the mismatches that were not there at the previous look and remembers the current set.
+func (w *world) fresh(ms []mismatch) []mismatch {
+	cur := map[string]bool{}
+	var out []mismatch
+	for _, m := range ms {
+		k := m.kind + "|" + m.id
+		cur[k] = true
+		if !w.diverged[k] {
+			out = append(out, m)
+		}
+	}
+	w.diverged = cur
+	return out
+}
+
+// novel: the mismatches that are not already known (does not change what is remembered).
+func (w *world) novel(ms []mismatch) []mismatch {
+	var out []mismatch
+	for _, m := range ms {
+		if !w.diverged[m.kind+"|"+m.id] {
+			out = append(out, m)
+		}
+	}
+	return out
+}
+
+// cause names the known ways a read can be wrong more precisely than "<kind> differs".
+func (w *world) cause(m mismatch) string { return causeOf(w.ref, m) }
+func causeOf(ref *refState, m mismatch) string {
+	if (m.kind == "hash" || m.kind == "sighash") && strings.HasPrefix(m.got, "ok ") && m.want == "err:notfound" && ref.overwritten(m.id) {
+		return "C14/read/by-hash-returns-other-block-after-height-overwrite"
+	}
+	return ""
 }
 
 func (w *world) close() {
@@ -413,16 +503,14 @@ func (w *world) postAudit(c *hx.Ctx, op string, touched func(kind, id string) bo
 	if !w.mon {
 		return
 	}
-	ms := audit(w.st, w.ref, w.un)
-	for _, m := range ms {
-		if touched != nil && touched(m.kind, m.id) {
+	for _, m := range w.fresh(audit(w.st, w.ref, w.un)) {
+		if sig := w.cause(m); sig != "" {
+			c.Report(sig, "after "+op+": "+m.String())
+		} else if touched != nil && touched(m.kind, m.id) {
 			c.Report("C14/read/"+m.kind+"-after-"+op, "after "+op+": "+m.String())
 		} else {
 			c.Report("C14/kinds/"+op+"-changes-"+m.kind, "after "+op+" a record it must not touch changed: "+m.String())
 		}
-	}
-	if len(ms) > 0 {
-		w.mon = false
 	}
 }
 
@@ -430,13 +518,29 @@ func (w *world) snapshot(op string) {
 	w.snaps = append(w.snaps, snap{writes: w.be.NumWrites(), ref: w.ref.clone(), op: op})
 }
 
-// checkRead: an explicit read op must agree with the reference map.
-func (w *world) checkRead(c *hx.Ctx, kind, id, got, want string) {
-	if !w.mon || got == want {
+// checkRead: an explicit read op must agree with the reference map (akind = the audit's name of the read).
+func (w *world) checkRead(c *hx.Ctx, kind, akind, id, got, want string) {
+	if !w.mon {
+		return
+	}
+	k := akind + "|" + id
+	if got == want {
+		delete(w.diverged, k)
+		return
+	}
+	if w.diverged[k] {
+		return // reported when it first went wrong
+	}
+	if w.diverged == nil {
+		w.diverged = map[string]bool{}
+	}
+	w.diverged[k] = true
+	m := mismatch{akind, id, got, want}
+	if sig := w.cause(m); sig != "" {
+		c.Report(sig, m.String())
 		return
 	}
 	c.Report("C14/read/"+kind, mismatch{kind, id, got, want}.String())
-	w.mon = false
 }
 
 func guard(c *hx.Ctx, what string, f func() string) (out string) {
@@ -523,9 +627,10 @@ func (w *world) do(c *hx.Ctx, op hx.Op) string {
 		hb, _ := sh.MarshalBinary()
 		db, _ := d.MarshalBinary()
 		hk := hx.Hex(hash)
+		oldHash := ""
 		if old, ok := w.ref.blocks[h]; ok {
+			oldHash = old.hash
 			if old.hash != hk {
-				w.ref.resaved[h] = true
 				c.Hit("save-overwrite-different")
 			} else {
 				c.Hit("save-overwrite-same")
@@ -533,17 +638,15 @@ func (w *world) do(c *hx.Ctx, op hx.Op) string {
 		} else {
 			c.Hit("save-new")
 		}
-		w.ref.blocks[h] = refBlock{hdr: hb, data: db, sig: append([]byte(nil), sig...), hash: hk}
-		w.ref.index[hk] = h
+		w.ref.save(h, hk, hb, db, sig)
 		w.un.heights[h] = true
 		w.un.hashes[hk] = hash
 		// all-or-nothing under every crash prefix of this op's writes (independent of the model)
 		if w.mon && w.kind == "log" {
 			for n := before + 1; n < after; n++ {
 				tmp := storepkg.New(hx.NewLogDS(w.lds.ImageAt(n)))
-				if a, b := audit(tmp, refBefore, w.un), audit(tmp, w.ref, w.un); len(a) > 0 && len(b) > 0 {
+				if a, b := w.novel(audit(tmp, refBefore, w.un)), w.novel(audit(tmp, w.ref, w.un)); len(a) > 0 && len(b) > 0 {
 					c.Report("C14/atomic/save-torn", fmt.Sprintf("a crash after %d of the %d atomic writes of one block save leaves neither the old nor the new store: vs old: %s; vs new: %s", n-before, after-before, a[0], b[0]))
-					w.mon = false
 				}
 			}
 		}
@@ -552,8 +655,7 @@ func (w *world) do(c *hx.Ctx, op hx.Op) string {
 			case "block", "header", "signature":
 				return id == fmt.Sprint(h)
 			case "hash", "sighash":
-				x, ok := w.ref.index[id]
-				return ok && x == h
+				return id == hk || id == oldHash
 			}
 			return false
 		})
@@ -575,7 +677,7 @@ func (w *world) do(c *hx.Ctx, op hx.Op) string {
 			got, want, kind = rdSig(w.st, at), w.ref.expSig(at), "signature-by-height"
 		}
 		c.Hit(op.Verb + "-" + strings.SplitN(got, " ", 2)[0])
-		w.checkRead(c, kind, fmt.Sprint(at), got, want)
+		w.checkRead(c, kind, map[string]string{"get": "block", "geth": "header", "sig": "signature"}[op.Verb], fmt.Sprint(at), got, want)
 		return got
 	case "getbyhash", "sigbyhash":
 		x, ok := parseHash(op, "x")
@@ -586,24 +688,25 @@ func (w *world) do(c *hx.Ctx, op hx.Op) string {
 		var got, want, kind string
 		if op.Verb == "getbyhash" {
 			got, want, kind = rdByHash(w.st, x), w.ref.expByHash(x), "block-by-hash"
-			// the stronger reading: unless the height was saved again under another header, the block found
-			// under hash x has hash x
+			// always armed, and independent of the reference map: a block found under hash x has hash x
 			if w.mon && strings.HasPrefix(got, "ok ") {
-				if hd, _, err := w.st.GetBlockByHash(ctx, x); err == nil {
-					if h := hd.Height(); !w.ref.resaved[h] && !bytes.Equal(hd.Hash(), x) {
-						c.Report("C14/read/block-by-hash-has-other-hash", fmt.Sprintf("GetBlockByHash(%s) returned the block of height %d with hash %s although that height was never saved under another header", hx.Hex(x), h, hx.Hex(hd.Hash())))
+				if hd, _, err := w.st.GetBlockByHash(ctx, x); err == nil && !bytes.Equal(hd.Hash(), x) {
+					sig := "C14/read/block-by-hash-has-other-hash"
+					if w.ref.overwritten(hx.Hex(x)) {
+						sig = "C14/read/by-hash-returns-other-block-after-height-overwrite"
 					}
+					c.Report(sig, fmt.Sprintf("GetBlockByHash(%s) returned the block of height %d whose header hash is %s", hx.Hex(x), hd.Height(), hx.Hex(hd.Hash())))
 				}
 			}
 		} else {
 			got, want, kind = rdSigByHash(w.st, x), w.ref.expSigByHash(x), "signature-by-hash"
 		}
 		c.Hit(op.Verb + "-" + strings.SplitN(got, " ", 2)[0])
-		w.checkRead(c, kind, hx.Hex(x), got, want)
+		w.checkRead(c, kind, map[string]string{"getbyhash": "hash", "sigbyhash": "sighash"}[op.Verb], hx.Hex(x), got, want)
 		return got
 	case "height":
 		got := rdHeight(w.st)
-		w.checkRead(c, "height", "", got, w.ref.expHeight())
+		w.checkRead(c, "height", "height", "", got, w.ref.expHeight())
 		return got
 	case "setheight":
 		to, ok := op.U64("to")
@@ -625,7 +728,6 @@ func (w *world) do(c *hx.Ctx, op hx.Op) string {
 		if w.mon {
 			if h, err := w.st.Height(ctx); err == nil && h < old {
 				c.Report("C14/height/decreased", fmt.Sprintf("SetHeight(%d) lowered the recorded height from %d to %d", to, old, h))
-				w.mon = false
 			}
 		}
 		w.postAudit(c, "setheight", func(kind, id string) bool { return kind == "height" })
@@ -646,7 +748,7 @@ func (w *world) do(c *hx.Ctx, op hx.Op) string {
 	case "getstate":
 		got := rdState(w.st)
 		c.Hit("getstate-" + strings.SplitN(got, " ", 2)[0])
-		w.checkRead(c, "state", "", got, w.ref.expState())
+		w.checkRead(c, "state", "state", "", got, w.ref.expState())
 		return got
 	case "setmeta":
 		k, ok := parseKey(op)
@@ -673,7 +775,7 @@ func (w *world) do(c *hx.Ctx, op hx.Op) string {
 		w.un.metas[k] = true
 		got := rdMeta(w.st, k)
 		c.Hit("getmeta-" + strings.SplitN(got, " ", 2)[0])
-		w.checkRead(c, "meta", k, got, w.ref.expMeta(k))
+		w.checkRead(c, "meta", "meta", k, got, w.ref.expMeta(k))
 		return got
 	case "crash":
 		back, ok := op.U64("back")
@@ -706,29 +808,46 @@ func (w *world) do(c *hx.Ctx, op hx.Op) string {
 		c.Hit(fmt.Sprintf("crash-back-%d", min(int(back), 4)))
 		if w.mon {
 			if exact {
-				if ms := audit(w.st, chosen, w.un); len(ms) > 0 {
-					for _, m := range ms {
-						c.Report("C14/crash/"+m.kind+"-differs-at-op-boundary", fmt.Sprintf("after a crash that kept %d of %d atomic writes (an operation boundary): %s", keep, n, m))
+				for _, m := range w.fresh(audit(w.st, chosen, w.un)) {
+					if sig := causeOf(chosen, m); sig != "" {
+						c.Report(sig, fmt.Sprintf("after a crash that kept %d of %d atomic writes (an operation boundary): %s", keep, n, m))
+						continue
 					}
-					w.mon = false
+					c.Report("C14/crash/"+m.kind+"-differs-at-op-boundary", fmt.Sprintf("after a crash that kept %d of %d atomic writes (an operation boundary): %s", keep, n, m))
 				}
 			} else {
 				// inside an operation that issued several atomic writes: all or nothing
 				hi := w.snaps[min(lo+1, len(w.snaps)-1)]
-				a, b := audit(w.st, chosen, w.un), audit(w.st, hi.ref, w.un)
+				a, b := w.novel(audit(w.st, chosen, w.un)), w.novel(audit(w.st, hi.ref, w.un))
 				if len(a) > 0 && len(b) > 0 {
 					c.Report("C14/atomic/"+hi.op+"-torn", fmt.Sprintf("a crash that kept %d of %d atomic writes cut a %s in the middle: vs before: %s; vs after: %s", keep, n, hi.op, a[0], b[0]))
-					w.mon = false
 				} else if len(a) > 0 {
 					chosen = hi.ref
 				}
 			}
+		}
+		if w.mon {
+			w.fresh(audit(w.st, chosen, w.un)) // what is wrong now was reported above: do not blame later operations
 		}
 		w.ref = chosen.clone()
 		w.snaps = []snap{{writes: 0, ref: w.ref.clone(), op: "crash"}}
 		return fmt.Sprintf("ok n=%d", keep)
 	case "reopen":
 		w.reopen(c, "reopen")
+		return "ok"
+	case "bigsave":
+		// exploration on REAL badger (own scratch database, the scenario's store is not touched): is a block save
+		// whose values approach / exceed badger's value threshold still ONE badger transaction?
+		hn, ok1 := op.U64("hdr")
+		dn, ok2 := op.U64("data")
+		sn, ok3 := op.U64("sig")
+		if !ok1 || !ok2 || !ok3 {
+			return "bad-op"
+		}
+		if hn > 1<<25 || dn > 1<<25 || sn > 1<<25 {
+			return "ok" // sizes the generator never asks for
+		}
+		bigSave(c, int(hn), int(dn), int(sn))
 		return "ok"
 	}
 	return "bad-op"
@@ -749,11 +868,12 @@ func (w *world) reopen(c *hx.Ctx, why string) {
 	}
 	w.st = storepkg.New(w.be)
 	if w.mon {
-		if ms := audit(w.st, w.ref, w.un); len(ms) > 0 {
-			for _, m := range ms {
-				c.Report("C14/durable/"+m.kind+"-lost-on-reopen", "after close and reopen: "+m.String())
+		for _, m := range w.fresh(audit(w.st, w.ref, w.un)) {
+			if sig := w.cause(m); sig != "" {
+				c.Report(sig, "after close and reopen: "+m.String())
+				continue
 			}
-			w.mon = false
+			c.Report("C14/durable/"+m.kind+"-lost-on-reopen", "after close and reopen: "+m.String())
 		}
 	}
 }
@@ -854,15 +974,6 @@ func rstateLine(r *hx.Rng) string {
 	}
 	return fmt.Sprintf("state vb=%d va=%d cid=%s ih=%d lbh=%d ts=%d tn=%d da=%d lrh=%s ah=%s",
 		ru64(r), uint64(r.Intn(3)), hx.Hex([]byte(rchain(r))), ru64(r), ru64(r), ts, tn, ru64(r), hx.Hex(rbytes(r, 0, 32)), hx.Hex(rbytes(r, 0, 32, 8)))
-}
-
-// NodeMetaKeys: every metadata key the node uses (block/manager.go, pending_base.go, da_includer.go), for two heights.
-func NodeMetaKeys(h1, h2 uint64) []string {
-	return []string{
-		storepkg.DAIncludedHeightKey, storepkg.LastBatchDataKey, storepkg.LastSubmittedHeaderHeightKey, "last-submitted-data-height",
-		fmt.Sprintf("%s/%d/h", storepkg.RollkitHeightToDAHeightKey, h1), fmt.Sprintf("%s/%d/d", storepkg.RollkitHeightToDAHeightKey, h1),
-		fmt.Sprintf("%s/%d/h", storepkg.RollkitHeightToDAHeightKey, h2), fmt.Sprintf("%s/%d/d", storepkg.RollkitHeightToDAHeightKey, h2),
-	}
 }
 
 // metadata keys that look like the other kinds' keys but are left alone by path.Clean
@@ -997,6 +1108,15 @@ func genC14(r *hx.Rng, tier string, w io.Writer) {
 	}
 	for i := 0; i < nbadger; i++ {
 		genScenario(r, w, "badger", 40, false)
+	}
+	if tier == "thorough" {
+		// values just below badger's 1 MiB value threshold (they count in full towards the transaction size
+		// limit, ~10 MB with the node's options), above it (they count as pointers), and small
+		fmt.Fprintln(w, "reset backend=log mon=1")
+		for _, l := range []string{"bigsave hdr=1048000 data=1048000 sig=1048000", "bigsave hdr=100 data=1048575 sig=64",
+			"bigsave hdr=3000000 data=6000000 sig=3000000", "bigsave hdr=200 data=12000000 sig=64", "bigsave hdr=100 data=100 sig=64", "bigsave hdr=1"} {
+			fmt.Fprintln(w, l)
+		}
 	}
 }
 
